@@ -1,4 +1,5 @@
 import PeptVerif.Lemmas.Combinatoric
+set_option linter.unusedSimpArgs false
 namespace Pept
 
 /-! Helper lemmas for C19: the four enumerations are the filtered lexicographic index tuples of the itertools documentation. -/
